@@ -53,6 +53,21 @@ def _coord(rng, n, rmax, lattice, where):
     return round(v * 4) / 4 if lattice else v + (rng.random() - 0.5) * 1e-3
 
 
+def _fits(arr, dt):
+    """Can the float64 array be stored in dtype dt without changing any value?"""
+    if dt == 'float64':
+        return True
+    fin = np.isfinite(arr)
+    if dt == 'float32':
+        with np.errstate(over='ignore', under='ignore'):
+            back = arr.astype(np.float32).astype(float)
+        return bool(np.all((back == arr) | ~fin) and np.all(np.isfinite(back) == fin))
+    if not fin.all() or not np.all(arr == np.rint(arr)):
+        return False
+    info = np.iinfo(dt)
+    return bool(arr.min() >= info.min and arr.max() <= info.max)
+
+
 def gen_spec(rng, lattice=True, small=False, kind=None):
     ny = rng.randint(3, 6 if small else 10)
     nx = rng.randint(3, 6 if small else 10)
@@ -118,10 +133,21 @@ def gen_spec(rng, lattice=True, small=False, kind=None):
         subpixels = rng.choice([1, 2, 4, 8]) if method == 'subpixel' else 5
     else:
         method, subpixels = 'exact', 5
+    # storage types: error maps (and data) in narrow integer dtypes / float32, with error values large enough
+    # that value**2 does not fit the dtype (the numbers stay integers, i.e. on the exact lattice)
+    edt = ddt = 'float64'
+    if lattice and error is not None and np.all(np.isfinite(error)) and rng.random() < 0.35:
+        edt = rng.choice(['uint8', 'int16', 'uint16', 'int32', 'float32'])
+        lo, hi = {'uint8': (10, 40), 'int16': (150, 400), 'uint16': (200, 600), 'int32': (40000, 60000),
+                  'float32': (4000, 9000)}[edt]
+        if rng.random() < 0.75:
+            error = np.array([[float(rng.randint(lo, hi)) for _ in range(nx)] for _ in range(ny)])
     # magnitudes: the same numbers in other units. Lattice: exact power of two 2^-80 .. 2^80 (the Coq
     # model sees the unscaled integers and applies 2^k exactly); doubles: arbitrary unit factors
     if lattice:
         scale = rng.choice([0, 0, rng.randint(-80, 80), rng.randint(-80, -20), rng.randint(20, 80)])
+        if edt not in ('float64', 'float32'):
+            scale = 0
         factor = 2.0 ** scale
     else:
         factor = rng.choice([1.0, 1.0, 3e-17, 1e-12, 7e-6, 2.5e9, 4e20])
@@ -131,8 +157,24 @@ def gen_spec(rng, lattice=True, small=False, kind=None):
         if error is not None:
             error = error * factor
     # a share of the objects is built from Quantity data/error ('' = dimensionless Quantity)
-    unit = rng.choice([None, None, None, 'Jy', 'electron / s', 'adu', '']) 
-    return dict(kind=kind, data=data, error=error, mask=mask, xycen=(xc, yc), radii=radii, method=method,
+    unit = rng.choice([None, None, None, 'Jy', 'electron / s', 'adu', ''])
+    if edt not in ('float64', 'float32'):
+        unit = None                         # a Quantity would convert the integers to float64
+    if rng.random() < 0.3:
+        cands = ['float32'] if (unit is not None or not lattice) else ['float32', 'int16', 'int32', 'int64', 'uint8', 'uint16']
+        rng.shuffle(cands)
+        if not lattice:                     # arbitrary doubles: take the float32-representable neighbours
+            with np.errstate(over='ignore'):
+                data = data.astype(np.float32).astype(float)
+        ddt = next((d for d in cands if _fits(data, d)), 'float64')
+    if not lattice and error is not None and rng.random() < 0.25:
+        error = error.astype(np.float32).astype(float)
+        edt = 'float32'
+    if error is None or not _fits(error, edt):
+        edt = 'float64'
+    if not _fits(data, ddt):
+        ddt = 'float64'
+    return dict(dtype_data=ddt, dtype_error=edt, kind=kind, data=data, error=error, mask=mask, xycen=(xc, yc), radii=radii, method=method,
                 subpixels=subpixels, dkind=dk, where=(wx, wy), mkind=mk, nonfinite=nonfinite, lattice=lattice,
                 scale=scale, factor=factor, unit=unit)
 
@@ -147,7 +189,8 @@ def describe(spec, ops=None):
              mask=None if spec['mask'] is None else spec['mask'].astype(int).tolist(),
              xycen=[float(spec['xycen'][0]), float(spec['xycen'][1])], radii=[float(r) for r in spec['radii']],
              method=spec['method'], subpixels=int(spec['subpixels']), unit_factor=spec.get('factor', 1.0),
-             unit=spec.get('unit'))
+             unit=spec.get('unit'), dtype_data=spec.get('dtype_data', 'float64'),
+             dtype_error=spec.get('dtype_error', 'float64'))
     if ops is not None:
         d['ops'] = list(ops)
     return d
@@ -161,7 +204,8 @@ def undescribe(d):
                           for v in row] for row in a], float)
     return dict(kind=d['kind'], data=arr(d['data']), error=arr(d['error']),
                 mask=None if d['mask'] is None else np.array(d['mask'], bool), xycen=tuple(d['xycen']),
-                radii=list(d['radii']), method=d['method'], subpixels=d['subpixels'], unit=d.get('unit'))
+                radii=list(d['radii']), method=d['method'], subpixels=d['subpixels'], unit=d.get('unit'),
+                dtype_data=d.get('dtype_data', 'float64'), dtype_error=d.get('dtype_error', 'float64'))
 
 
 # ----------------------------------------------------------------------------------------
@@ -170,7 +214,8 @@ def undescribe(d):
 def make(spec):
     from photutils.profiles import CurveOfGrowth, RadialProfile
     cls = RadialProfile if spec['kind'] == 'radial' else CurveOfGrowth
-    data, error = spec['data'].copy(), None if spec['error'] is None else spec['error'].copy()
+    data = spec['data'].astype(spec.get('dtype_data', 'float64'))
+    error = None if spec['error'] is None else spec['error'].astype(spec.get('dtype_error', 'float64'))
     if spec.get('unit') is not None:
         import astropy.units as u
         unit = u.Unit(spec['unit'])
@@ -785,6 +830,7 @@ def check_object(ctx, rep, spec, raw, W, tag):
     ctx.stat(tag + ':centre', '/'.join(spec['where']))
     ctx.stat(tag + ':data', spec['dkind'] + ('+nonfinite' if spec['nonfinite'] else ''))
     ctx.stat(tag + ':mask', spec['mkind'])
+    ctx.stat(tag + ':dtype', f"data={spec.get('dtype_data', 'float64')}/error={spec.get('dtype_error', 'float64') if spec['error'] is not None else '-'}")
     ctx.stat(tag + ':quantity', 'ndarray' if spec.get('unit') is None else repr(spec['unit']))
     f = spec.get('factor', 1.0)
     ctx.stat(tag + ':unit', '1' if f == 1.0 else ('<1e-15' if f < 1e-15 else '<1' if f < 1 else '>1e15' if f > 1e15 else '>1'))
